@@ -211,7 +211,7 @@ func NewBlockFromBytes(serializedBlock []byte) (*Block, error) {
 	if err != nil {
 		return nil, err
 	}
-	b.serializedBlock = serializedBlock
+	b.serializedBlock = serializedBlock[:len(serializedBlock)-br.Len()]
 	return b, nil
 }
 
